@@ -96,7 +96,7 @@ Match(e) == /\\ \\A o \\in Objs : e.q[o][1] = qstate[o] /\\ e.q[o][2] = Len(jobs
              /\\ \\A p \\in Pipes : SeqToSet(e.pf[p]) = h.pflags[p] \\ {"late_event", "in_closed"} /\\ e.pc[p] = <<h.pproc[p], h.pfin[p], h.pout[p]>>
 QS == [o \\in Objs |-> <<qstate[o], Len(jobs[o])>>]
 PrevMatches == (l > 1 /\\ Rec[l - 1].kind = "step") => Match(Rec[l - 1])
-IsSilent(p) == pc[p] \\in SilentLabels \\/ (atomic[p] /\\ pc[p] # "Done" /\\ ~(pc[p] = "st_dormant" /\\ thrHeld = p))
+IsSilent(p) == pc[p] \\in SilentLabels \\/ (atomic[p] /\\ pc[p] # "Done" /\\ ~(pc[p] = "st_dormant" /\\ thrHeld = p) /\\ ~(pc[p] \\in {"st_reap", "st_dormant", "st_spawn"} /\\ thrHeld # "" /\\ thrHeld # p))
 SilentPending == \\E p \\in Procs : IsSilent(p)
 TraceInit == Init /\\ l \\in {i + 1 : i \\in {j \\in 1..Len(Rec) : Rec[j].kind = "run"}}
 TraceNext == \\/ /\\ SilentPending
